@@ -2286,8 +2286,55 @@ pub fn check_c20(ix: &Ix<'_>, v: &mut Vec<Violation>) {
             }
         }
         "read-rate" => {
-            let Some((timeout, _max, _rate)) = out.plan.cfg.frame_read_rate else { return };
+            let Some((timeout, max_timeout, rate)) = out.plan.cfg.frame_read_rate else { return };
             let timeout = u64::from(timeout) * 1000;
+            if out.plan.tags.iter().any(|t| t == "two-frames") {
+                // two trickled frames one after the other: the clauses are judged per frame
+                struct Fr {
+                    first: u64,
+                    first_len: usize,
+                    completed: Option<u64>,
+                }
+                let mut frames: Vec<Fr> = Vec::new();
+                let mut open = false;
+                for s in ix.sent.iter().filter(|s| s.conn == conn && !matches!(s.pkt, Some(Pkt::Connect(_)))) {
+                    let Some(d) = s.delivered.map(t_of) else { continue };
+                    if !open {
+                        frames.push(Fr { first: d, first_len: s.len, completed: None });
+                        open = true;
+                    }
+                    if s.pkt.is_some() {
+                        frames.last_mut().unwrap().completed = Some(d);
+                        open = false;
+                    }
+                }
+                if let Some((sq, _, _)) = rd_stop {
+                    let ts = t_of(*sq);
+                    match frames.iter().find(|f| f.first <= ts && f.completed.is_none_or(|c| c > ts.saturating_sub(1000))) {
+                        None => viol(v, "C20", format!("C20/read-timeout-without-partial-frame/{role}"), format!("read timeout at {ts} ms although no partial frame was pending"), *sq),
+                        Some(f) => {
+                            if f.completed.is_some_and(|c| c + 1000 < f.first + timeout) {
+                                viol(v, "C20", format!("C20/fast-frame-timed-out/{role}"), format!("the frame was complete {} ms after its first byte (read timeout {timeout} ms), yet the connection was ended with a read timeout", f.completed.unwrap() - f.first), *sq);
+                            }
+                            // the first expiry of this frame's timer finds at least its first piece: more than
+                            // `rate` bytes in that period extend the timer (unless the maximum is used up)
+                            let may_extend = max_timeout == 0 || u64::from(max_timeout) * 1000 > timeout;
+                            // (the rate is measured on undecoded bytes: the codec may already have consumed the
+                            // fixed header of the frame, up to 5 bytes - hence the margin)
+                            if ts < f.first + 2 * timeout && f.first_len as u64 > u64::from(rate) + 8 && may_extend {
+                                viol(
+                                    v,
+                                    "C20",
+                                    format!("C20/live-frame-timed-out-at-first-expiry/{role}"),
+                                    format!("a frame whose first piece of {} bytes arrived at {} ms (rate {rate} bytes per {timeout} ms) was ended with a read timeout at {ts} ms, before a second period could have elapsed", f.first_len, f.first),
+                                    *sq,
+                                );
+                            }
+                        }
+                    }
+                }
+                return;
+            }
             // byte arrival times of the (single) trickled frame
             let pieces: Vec<(u64, bool)> = ix.sent.iter().filter(|s| s.conn == conn && !matches!(s.pkt, Some(Pkt::Connect(_)))).filter_map(|s| s.delivered.map(|d| (t_of(d), s.pkt.is_some()))).collect();
             let Some(first) = pieces.first().map(|p| p.0) else { return };
